@@ -419,6 +419,17 @@ func CheckLemma(P *Program, l *Lemma, pkgPath string) *FuncReport {
 func (ex *Exec) addFieldInputs(fn *ssa.Function) {
 	var rec func(key string, base *Term, t types.Type, depth int)
 	rec = func(key string, base *Term, t types.Type, depth int) {
+		if _, isIface := t.Underlying().(*types.Interface); isIface && depth <= 2 {
+			// an interface value whose dynamic type a clause names (typeIs): its fields are inputs too, so that a
+			// counterexample can be rebuilt with an object of that type
+			if dt, ok := ex.dynHints[base]; ok {
+				if _, isPtr := dt.Underlying().(*types.Pointer); isPtr {
+					ex.dynOf[key] = dt
+					rec(key, base, dt, depth)
+				}
+			}
+			return
+		}
 		pt, ok := t.Underlying().(*types.Pointer)
 		if !ok || depth > 2 {
 			return
